@@ -248,7 +248,19 @@ def _ensure_devnull():
         sys.exit(2)
 
 
+def _fix_hash_seed():
+    """Python's str/bytes hash randomisation decides the iteration order of sets
+    inside breezy (conflict order, ancestry walks ...): derive it from VERIF_SEED
+    so that a run, and the replay of what it found, are reproducible."""
+    if "PYTHONHASHSEED" in os.environ:
+        return
+    seed = int(os.environ.get("VERIF_SEED", "0") or 0)
+    os.environ["PYTHONHASHSEED"] = str(1 + seed % 4000000000)
+    os.execv(sys.executable, [sys.executable] + sys.argv)
+
+
 def _main_keeping_generated():
+    _fix_hash_seed()
     _ensure_devnull()
     """A run against a scratch worktree (VERIF_REPO != /repo) regenerates
     lean/BreezyVerif/Generated/Cxx.lean from that tree; put the /repo version
